@@ -427,3 +427,62 @@ def _(u):
     td0 = SymTD({"action_mask": u.tensor("action_mask0", (B, N), "b")}, (B,))
     l0, _ = u.run(NAR, "NonAutoregressiveDecoder.heatmap_to_logits", td0, heat, K, record=False)
     u.prove("nar.logits.first-step.shape", tuple(l0.shape) == (B, N))
+
+
+# ---- pre-decoder hooks: replication of the state and the forced first move ------------------------------------------------
+def _is_zero(t, *I):
+    v = t.at(*I)
+    return NOT(v) if t.dtype == "b" else v == 0
+
+
+def _hook_env(u, K, B, N, starts):
+    seen = {}
+
+    def step(td):
+        seen["stepped"] = td
+        return {"next": td}
+
+    return u.ns(select_start_nodes=lambda td, num_starts=None: starts, get_num_starts=lambda td: K, step=step), seen
+
+
+@unit("decoding.pre_decoder_hook.multistart", file=DEC, func="DecodingStrategy.pre_decoder_hook", props=("C12", "C11", "C14"))
+def _(u):
+    B, N = u.dims("B N")
+    K = u.dim("K", 2)
+    for store_all in (False, True):
+        tag = "all-logp" if store_all else "sel-logp"
+        td = SymTD({"locs": u.tensor(f"locs.{tag}", (B, N, 2), "f"), "action_mask": u.tensor(f"action_mask.{tag}", (B, N), "b")}, (B,))
+        starts = u.tensor(f"start_nodes.{tag}", (K * B,), "i")
+        env, seen = _hook_env(u, K, B, N, starts)
+        strat = u.obj(DEC, "Greedy", multistart=True, multisample=False, num_starts=K, select_start_nodes_fn=None, store_all_logp=store_all,
+                      logprobs=[], actions=[], name="greedy")
+        td2, _, ns = u.run(DEC, "DecodingStrategy.pre_decoder_hook", td, env, selfobj=strat, record=False)
+        r = u.idx((K * B,), f"r.{tag}")
+        n = u.idx((N,), f"n.{tag}")
+        u.prove(f"hook.{tag}.num-starts", ns == K)
+        u.prove(f"hook.{tag}.state-replicated-start-major", AND(len(td2.batch_size) == 1, zint(td2.batch_size[0]) == K * B, td2["locs"].at(r, n, 1) == td["locs"].at(r % B, n, 1)))
+        u.prove(f"hook.{tag}.forced-action-is-the-start-node", AND(seen["stepped"]["action"].at(r) == starts.at(r), len(strat._attrs["actions"]) == 1,
+                                                                   strat._attrs["actions"][0].at(r) == starts.at(r)))
+        lp0 = strat._attrs["logprobs"][0]
+        # (zeros_like of the boolean mask is a boolean tensor of False: it counts as 0 once stacked with the float log-probs)
+        u.prove(f"hook.{tag}.forced-move-has-logprob-zero", _is_zero(lp0, r, n) if store_all else _is_zero(lp0, r))
+        u.canary(f"hook.{tag}.instance-major", td2["locs"].at(r, n, 1) == td["locs"].at(r / K, n, 1))
+
+
+@unit("decoding.pre_decoder_hook.beam", file=DEC, func="BeamSearch.pre_decoder_hook", props=("C13", "C12"))
+def _(u):
+    B, N = u.dims("B N")
+    K = u.dim("W", 2)
+    td = SymTD({"locs": u.tensor("locs", (B, N, 2), "f"), "action_mask": u.tensor("action_mask", (B, N), "b")}, (B,))
+    starts = u.tensor("start_nodes", (K * B,), "i")
+    u.requires(u.forall((K * B,), lambda r: AND(starts.at(r) >= 0, starts.at(r) < N)))
+    env, seen = _hook_env(u, K, B, N, starts)
+    strat = u.obj(DEC, "BeamSearch", beam_width=K, select_start_nodes_fn=None, logprobs=[], actions=[], beam_path=[], parent_beam_logprobs=None)
+    td2, _, ns = u.run(DEC, "BeamSearch.pre_decoder_hook", td, env, selfobj=strat, record=False)
+    r = u.idx((K * B,), "r")
+    n = u.idx((N,), "n")
+    u.prove("beamhook.width", ns == K)
+    u.prove("beamhook.state-replicated-beam-major", AND(len(td2.batch_size) == 1, zint(td2.batch_size[0]) == K * B, td2["locs"].at(r, n, 1) == td["locs"].at(r % B, n, 1)))
+    u.prove("beamhook.forced-action", AND(seen["stepped"]["action"].at(r) == starts.at(r), strat._attrs["actions"][0].at(r) == starts.at(r)))
+    u.prove("beamhook.initial-scores-zero", AND(_is_zero(strat._attrs["parent_beam_logprobs"], r, 0), _is_zero(strat._attrs["logprobs"][0], r, n)))
+    u.prove("beamhook.initial-parent-zero", AND(len(strat._attrs["beam_path"]) == 1, strat._attrs["beam_path"][0].at(r) == 0))
